@@ -432,6 +432,7 @@ func runC10Typed(ctx *core.Ctx) {
 func runC10(ctx *core.Ctx) {
 	runC10Typed(ctx)
 	runC10Tree(ctx)
+	runC10Norm(ctx)
 	runC10Loads(ctx)
 	ctx.Res.Exhaustive = true // the small-scope streams above are enumerated completely (see design/C10.md)
 }
